@@ -73,6 +73,14 @@ CLAIMS = {
         note="A1, A2, A4; unit nesting bg<=fg<=hh, bg<=wthh, eg<=bg,fg,hh, sn<=ehe from C12/C17 and VALID; aggregates constant per group by the C11 contract",
         ref="7 C15",
     ),
+    "C17": dict(
+        engine=E1,
+        level="proof",
+        technique="contract-based deductive verification: lemmas over the E1 strongest postconditions of the real benefit rules and the kernel contracts (wthh_id post, grouped any/sum/count with Skolem member rows), quantifier-free after Skolemisation, discharged by z3; the wthh_id_numpy contract is re-discharged (E2) in the same check",
+        text="Per distinct set of rule versions >= 2015: ALG II/Kinderzuschlag, ALG II/Wohngeld, Grundsicherung vs. the others are mutually exclusive for every person; same needs unit => same Wohngeld part-household; Kinderzuschlag is only paid where it (alone or with Wohngeld) covers the need; each benefit alone is satisfiable (non-vacuity). Counter-models are replayed through the API with the model's columns supplied as data.",
+        note="A1, A2; kernel contracts assumed at the cut points are those proved under C11/C12 (wthh_id re-proved here); VALID: Einstandspartner share a household; two aggregate lemmas (sum of 0/1 = count only if all 1; sum of non-negatives >= each member's term) are paper consequences of the C11 sum contract",
+        ref="7 C17",
+    ),
     "C18": dict(
         engine=E1,
         level="proof",
